@@ -1,5 +1,6 @@
 import SarpyModel.Drivers.Util
 import SarpyModel.Spec.FieldFmt
+import SarpyModel.Spec.NitfAssign
 namespace Sarpy.Drivers
 open Sarpy.Spec.FieldFmt
 
@@ -39,6 +40,35 @@ def showValue : Value → String
   | .str s => showHex s
   | .raw s => showHex s
 
+/-- descriptor: s<w> | i<w> | r<w> | e<w>:<hex>,<hex>,..:<default hex | _>  (hex of the empty string is `-`) -/
+def parseDesc (s : String) : Option Sarpy.Spec.NitfAssign.Desc :=
+  match s.toList with
+  | 'i' :: r => (String.ofList r).toNat?.map .int
+  | 's' :: r => (String.ofList r).toNat?.map .str
+  | 'r' :: r => (String.ofList r).toNat?.map .raw
+  | 'e' :: r =>
+    match (String.ofList r).splitOn ":" with
+    | [w, vals, dflt] => do
+      let w ← w.toNat?
+      let vals ← (vals.splitOn ",").mapM parseHex
+      let dflt ← (if dflt == "_" then some none else (parseHex dflt).map some)
+      pure (.enum w vals dflt)
+    | _ => none
+  | _ => none
+
+/-- input: t<hex> (text) | i<int> | b<hex> (bytes) -/
+def parseInput (s : String) : Option Sarpy.Spec.NitfAssign.Input :=
+  match s.toList with
+  | 't' :: r => (parseHex (String.ofList r)).map .text
+  | 'i' :: r => (String.ofList r).toInt?.map .int
+  | 'b' :: r => (parseHex (String.ofList r)).map .bytes
+  | _ => none
+
+def showStored : Sarpy.Spec.NitfAssign.Stored → String
+  | .text s => "t" ++ showHex s
+  | .int v => "i" ++ toString v
+  | .bytes s => "b" ++ showHex s
+
 /-- `enc f1,f2,.. v1,v2,..` → `<accepted> <hex>` ; `dec f1,f2,.. <hex>` → values and rest -/
 def fieldStep (toks : List String) : Option String :=
   match toks with
@@ -54,6 +84,13 @@ def fieldStep (toks : List String) : Option String :=
     match decRecord fs bs with
     | none => pure "none"
     | some (vals, rest) => pure ("ok " ++ ",".intercalate (vals.map showValue) ++ " " ++ showHex rest)
+  | ["assign", d, x] => do
+    -- `assign <descriptor> <input>` -> `refused` | `<stored> <rendered hex> <wfDesc>`
+    let d ← parseDesc d
+    let x ← parseInput x
+    match Sarpy.Spec.NitfAssign.assign d x with
+    | none => pure "refused"
+    | some v => pure s!"{showStored v} {showHex (Sarpy.Spec.NitfAssign.render d v)} {Sarpy.Spec.NitfAssign.wfDesc d}"
   | ["loop", cw, fs, items] => do
     let cw ← cw.toNat?
     let fs ← (fs.splitOn ",").mapM parseField
